@@ -61,7 +61,7 @@ def _pools():
     return P
 
 
-def catalogue(which, tier, seed):
+def catalogue(which, tier, seed, families=None):
     """which: 'single' (C05: single-key commands), 'multi' (C13: every case holds a multi-key command; cases with a
     command that need not be atomic are completion-only), 'stream' (C18). Returns list of case dicts."""
     rnd = random.Random(seed)
@@ -80,6 +80,8 @@ def catalogue(which, tier, seed):
         cases.append(cs)
 
     fams = ["stream"] if which == "stream" else list(P)
+    if families:
+        fams = [f for f in fams if f in families]
     ntri = 40 if tier == "quick" else 400
     for fam in fams:
         p = P[fam]
@@ -140,11 +142,11 @@ def _canon_tuple(progs):
     return out, max(1, len(ren))
 
 
-def run(which, tier, seed, maxpre=2, maxpre3=1, nproc=8):
+def run(which, tier, seed, maxpre=2, maxpre3=1, nproc=8, families=None):
     """Returns dict with coverage numbers, anomalies, history files + map for TraceLin."""
     tool = ks.build_tool("sched")
     d = common.scratch("sched-")
-    cases = catalogue(which, tier, seed)
+    cases = catalogue(which, tier, seed, families)
     cpath = os.path.join(d, "cases.json")
     json.dump(cases, open(cpath, "w"))
     # ---- observe
@@ -224,6 +226,15 @@ def run(which, tier, seed, maxpre=2, maxpre3=1, nproc=8):
                 for m in json.load(open(mp)):
                     out["maps"][m["h"]] = m
     return out
+
+
+def family_extra(prop, family):
+    """`extra` hook for ks.family_check: the family's own commands under every TLC-enumerated schedule (pairs and triples on
+    one key, reply serialisation included) - the sequential-meaning properties also hold when two clients use the type."""
+    def extra(v, cov, tier, seed):
+        r = run("single", tier, seed, maxpre=2 if tier == "quick" else 3, maxpre3=1 if tier == "quick" else 2, families=[family])
+        decide(r, v, prop, cov)
+    return extra
 
 
 def decide(r, verdict, prop, cov):
